@@ -558,5 +558,19 @@ func cycleCorpus() []*CycleCase {
 	h.Job.Priority = 50
 	out = append(out, &CycleCase{Scenario: "top-level-leaf-queue", Base: tl, Compare: false, NoLabel: map[string]bool{},
 		Extra: []HQ{{ID: 11, Parent: 0, Deserved: 1, OverQuota: 1}}, Hostile: []HostileJob{h}})
+	// every malformed annotation set, alone in a queue with quota on a cluster with free GPUs (whole-GPU request
+	// beside it or not), so that the pod gets as far into the allocation path as the code lets it
+	for i, ann := range hostileAnn {
+		for g := int64(0); g < 2; g++ {
+			h := hj(11)
+			h.Job.Pods[0].Gpus = g
+			h.PodAnn = map[string]map[string]string{"h1-0": ann}
+			b := base()
+			b.Nodes[0].Gpus = 4
+			_ = i
+			out = append(out, &CycleCase{Scenario: "hostile-pods", Base: b, Compare: false, Expect: "j1:1", NoLabel: map[string]bool{},
+				Extra: []HQ{{ID: 11, Parent: deptID, Deserved: 2, OverQuota: 1}}, Hostile: []HostileJob{h}})
+		}
+	}
 	return out
 }
